@@ -214,8 +214,7 @@ Definition handler (op : opk) (src : pipe) (others : list pipe) (st : ostate) (p
       | Nx (VMatN x) => (st, [SinkNext x])
       | Nx (VMatE x) => (st, [SinkError x])
       | Nx VMatC => (st, [UpAbort ser; SinkComplete ser])
-      | Nx _ => (st, [])
-      | _ => fwd st ser e
+      | _ => fwd st ser e         (* harness convention: a non-material item counts as Material::Next *)
       end
   | OTap _ =>
       match e with
@@ -353,13 +352,20 @@ Definition plan (op : opk) (src : pipe) (others : list pipe) : list (nat * pipe)
       (combine (seq 0 (S k)) (src :: others), seq 0 (S k))
   | OTakeUntil | OSkipUntil | OSample =>   (* trigger observer made first, subscribed first *)
       ([(0, nth 0 others PNever); (1, src)], [0; 1])
-  | OSwitchOnNext => ([(0, src); (1, nth 0 others PNever)], [0; 1])
+  | OSwitchOnNext => ([], [])             (* new_observer + subscribe for the source, THEN for the target: see init_acts *)
   | OFirst => ([(0, POp (OTake 1) src [])], [0])
   | OLast => ([(0, POp (OTakeLast 1) src [])], [0])
-  | OElementAt n => ([(0, POp OLast (POp (OTake n) src []) [])], [0])
+  | OElementAt n => ([(0, POp (OSkip (n - 1)) (POp (OTake n) src []) [])], [0])
   | OAll p => ([(0, POp (OTake 1) (POp (OFilter (neg_pred p)) src []) [])], [0])
   | OCombineLatest _ | OSequenceEqual => ([(0, POp OZip src others)], [0])
   | _ => ([(0, src)], [0])
+  end.
+
+(* subscriptions the source closure makes one after the other (new_observer immediately followed by subscribe) *)
+Definition init_acts (op : opk) (src : pipe) (others : list pipe) : list act :=
+  match op with
+  | OSwitchOnNext => [ASubscribe src 0; ASubscribe (nth 0 others PNever) 1]
+  | _ => []
   end.
 
 Definition hist_replay (sj : subj) (o : oid) : list req :=
@@ -572,7 +578,7 @@ Definition step (r : req) (w : world) : list req * world :=
               (flat_map (fun i => match nth_error ups i, find_ser i entries with
                                   | Some pp, Some o' => [SubscribePipe (snd pp) o']
                                   | _, _ => []
-                                  end) order, w6)
+                                  end) order ++ map (Act n) (init_acts op src others), w6)
           end
       end
   (* ---- subjects (subjects/*.rs) ---- *)
